@@ -127,8 +127,10 @@ namespace Pistache::Tcp
                 if (!isRaw())
                     return BufferHolder(_fd, size_, offset);
 
-                auto detached = _raw.copy(offset);
-                return BufferHolder(detached);
+                // keep the whole buffer and remember how much of it is already
+                // written, so that the write resumes there and the promise is
+                // fulfilled with the full byte count, as for file buffers
+                return BufferHolder(_raw, static_cast<off_t>(offset));
             }
 
         private:
